@@ -20,6 +20,7 @@
 #include <iostream>
 #include <map>
 #include <optional>
+#include <csignal>
 #include <sstream>
 #include <sys/wait.h>
 #include <unistd.h>
@@ -79,7 +80,7 @@ struct Scn {
     template <typename Fn>
     std::string observe(Fn &&fn) {
         try {
-            auto &r = fn();
+            auto &&r = fn();   // binds a reference (the shared value) or a value (a spelling that returns by value)
             return P<T>::show(r);
         } catch (const await_canceled_exception &) {
             return "canceled";
@@ -337,7 +338,7 @@ int main() {
         std::cout << "case " << hdr[1] << std::endl;
         pid_t pid = fork();
         if (pid == 0) {
-            alarm(20);
+            alarm(6);
             std::string T = hdr.size() > 3 ? hdr[3] : "mval";
             if (T == "str") { Scn<std::string> s; s.run(lines); }
             else { Scn<mval> s; s.run(lines); }
@@ -349,6 +350,9 @@ int main() {
         if (!(WIFEXITED(st) && WEXITSTATUS(st) == 0)) {
             std::cout << "crash " << (WIFSIGNALED(st) ? "signal " + std::to_string(WTERMSIG(st)) : "exit " + std::to_string(WEXITSTATUS(st))) << "\n";
             std::cout << "end" << std::endl;
+            // a call that never returns (SIGALRM): after three such cases the rest of the batch is not run (every one costs the time-out)
+            static int hangs = 0;
+            if (WIFSIGNALED(st) && WTERMSIG(st) == SIGALRM && ++hangs >= 3) return 0;
         }
     }
     return 0;
